@@ -115,7 +115,7 @@ def candidates() -> list[dict[str, Any]]:
     for t in ["int", "float", "bool"] + list(FIXED):
         for op in ARITH + CMP:
             if t == "float":
-                rl, ll = FLOAT_LITS + [2, 0], [1.0, 3]
+                rl, ll = FLOAT_LITS + [2, 0] + ([(1 << 53) + 1] if op in CMP else []), [1.0, 3]
             elif t in FIXED:
                 rl, ll = _fixed_lits(t, op)
             elif t == "bool":
@@ -145,7 +145,7 @@ def candidates() -> list[dict[str, Any]]:
             if t2 != "bool":
                 add("conv", t2, [t], f"return {t2}(a)", "call", expr=f"{t2}(a)", group="conv")
         for t2 in ["int", "float"] + list(FIXED):
-            if t2 != t:
+            if t2 != t and not (t2 == "float" and t != "float"):  # mypyc: int->float assignment is a compile error
                 add("conv", t2, [t], f"x: {t2} = a\n    return x", "assign", expr=None, group="conv")
     # both operands literal: mypyc's constant folding observed through the compiled result
     k = 0
@@ -240,6 +240,12 @@ def apply_probe(cands: list[dict[str, Any]], source: str, types: dict[Any, str],
             k = "static-type-outside-harness:" + str(rev.get(c["name"]))[:40]
             why[k] = why.get(k, 0) + 1
             continue
+        if c["kind"] == "inplace" and rt != c["pt"][0] and not (c["pt"][0] == "int" and rt in FIXED):
+            # `x = a; x op= b` where the static type of `a op b` is not the type of x: the assignment converts
+            # (int ** negative is float, ...): documented boundary behaviour, not a numeric primitive
+            k = "inplace-result-type-differs-from-variable"
+            why[k] = why.get(k, 0) + 1
+            continue
         c = dict(c)
         c["static"] = rt
         c["ret"] = "int" if c["kind"] == "branch" else rt
@@ -286,14 +292,15 @@ def int_boundary() -> list[int]:
 
 def fixed_boundary(t: str) -> list[int]:
     lo, hi, bits = FIXED[t]
-    s = {0, 1, 2, 3, 7, hi, hi - 1, lo, lo + 1, hi + 1, lo - 1, 1 << 63, 1 << 64, -(1 << 63) - 1, -(1 << 64), 10 ** 30,
-         (1 << 62), -(1 << 62) - 1, 255, 256, -1, -2}
+    s = {0, 1, 2, 3, 7, hi, hi - 1, lo, lo + 1, 255, 256, -1, -2}
     for k in range(0, bits + 1):
         if k in KS or k < 4 or k >= bits - 2:
             for d in (-1, 0, 1):
                 s.add((1 << k) + d)
                 s.add(-(1 << k) + d)
     s |= {bits - 1, bits, bits + 1, 2 * bits - 2, 2 * bits - 1, 2 * bits, 32, 33, 63, 64, 65, 126, 127, 128}
+    # in range, plus exactly these out-of-range values (conversion must reject them)
+    s = {v for v in s if lo <= v <= hi} | {hi + 1, lo - 1, 1 << 63, 1 << 64, -(1 << 63) - 1, -(1 << 64), 10 ** 30, -(1 << 62) - 1}
     r = common.rng_for("C15", "fixed-boundary-extra", t)
     for _ in range(6):
         s.add(r.randint(lo, hi))
@@ -417,22 +424,16 @@ def random_operands(spec: dict[str, Any], r: Any) -> tuple[Any, ...]:
 def admissible(spec: dict[str, Any], args: tuple[Any, ...]) -> bool:
     """False for operand tuples that are harness artefacts (resource blow-ups), never for value reasons."""
     op = spec["op"]
-    if op == "<<" or (spec["kind"] == "lit" and op == "<<"):
-        if spec["kind"] == "lit":
-            side, v = spec["lit"]
-            a, b = (args[0], v) if side == "r" else (v, args[0])
-        else:
-            a, b = args[0], args[1]
-        if isinstance(b, int) and not isinstance(a, float) and b > 4096 and a != 0:
-            return False  # MemoryError / minutes of work in both implementations
-    if op == "**":
-        if spec["kind"] == "lit":
-            side, v = spec["lit"]
-            a, b = (args[0], v) if side == "r" else (v, args[0])
-        else:
-            a, b = args[0], args[1]
-        if isinstance(a, int) and isinstance(b, int) and abs(b) > 4096 and abs(a) > 1:
-            return False
+    if op in ("<<", "**"):
+        _, vals, _ = operands(spec, args)
+        if len(vals) != 2:
+            return True
+        a, b = vals
+        if isinstance(a, int) and isinstance(b, int):
+            if op == "<<" and b > 4096 and a != 0:
+                return False  # MemoryError / minutes of work in both implementations
+            if op == "**" and abs(b) > 4096 and abs(a) > 1:
+                return False
     return True
 
 
@@ -477,7 +478,7 @@ def rep_class(t: str, v: Any) -> str:
 
 
 U8_WRAP_OPS = {"+", "-", "*", "<<", "neg", "inv", "negneg"}
-CONV_EXC = ("OverflowError", "ValueError")
+CONV_EXC = ("OverflowError", "ValueError", "TypeError")
 
 
 def _fixed_of(spec: dict[str, Any]) -> str | None:
@@ -520,41 +521,93 @@ def expectation(spec: dict[str, Any], args: tuple[Any, ...], exp: tuple[str, Any
         if ret == "u8" and spec["op"] in U8_WRAP_OPS and spec["kind"] in ("bin", "inplace", "lit", "un", "const"):
             return ("value", v % 256)
         return ("free", "fixed-width result does not fit")
-    if ret == "int" and type(v) is bool:
+    if (ret == "int" or ret in FIXED) and type(v) is bool:
         return ("value", int(v))  # documented: bool-ness of an int-typed value is not preserved
     if ret.startswith("tuple[") and any(type(x) is bool for x in vs):
         return ("value", tuple(int(x) if type(x) is bool else x for x in vs))
     return ("value", v)
 
 
-def regime(spec: dict[str, Any], args: tuple[Any, ...]) -> str:
-    """Operand regime for the mechanism key: which value-dependent path the operands select."""
-    op = spec["op"]
+def operands(spec: dict[str, Any], args: tuple[Any, ...]) -> tuple[list[str], list[Any], str]:
+    """(operand types, operand values, variant) of the operation itself: literal operands are put back in place."""
     pt = list(spec["pt"])
     vals = list(args)
+    variant = ""
     if spec["kind"] == "lit":
         side, v = spec["lit"]
         lt = "float" if isinstance(v, float) else ("bool" if isinstance(v, bool) else (pt[0] if pt[0] in FIXED else "int"))
         if side == "r":
-            pt, vals = pt + [lt], vals + [v]
+            pt, vals, variant = pt + [lt], vals + [v], "literal-right"
         else:
-            pt, vals = [lt] + pt, [v] + vals
+            pt, vals, variant = [lt] + pt, [v] + vals, "literal-left"
     elif spec["kind"] == "const":
         vals = list(spec["lit"])
         pt = ["float" if isinstance(v, float) else "int" for v in vals]
-    fx = _fixed_of(spec)
-    if op in ("<<", ">>") and len(vals) == 2 and isinstance(vals[1], int) and not isinstance(vals[0], float):
-        width = FIXED[fx][2] if fx else 64
-        c = vals[1]
-        cr = "count<0" if c < 0 else (f"count<{'width' if fx else '64'}" if c < width else f"count>={'width' if fx else '64'}")
-        return cr + ":" + rep_class(pt[0], vals[0])
-    if op in ("//", "%", "divmod", "/") and len(vals) == 2:
+        variant = "constant-folded"
+    return pt, vals, variant
+
+
+def _tclass(t: str) -> str:
+    return "sN" if t in ("i64", "i32", "i16") else t
+
+
+def _inexact_as_float(v: Any) -> str:
+    if isinstance(v, float) or isinstance(v, bool):
+        return "exact"
+    try:
+        return "exact" if int(float(v)) == v else "inexact"
+    except OverflowError:
+        return "too-large"
+
+
+def _kclass(t: str, v: Any) -> str:
+    c = rep_class(t, v)
+    return "in" if c == "edge" else c
+
+
+def mechanism(spec: dict[str, Any], args: tuple[Any, ...]) -> str:
+    """Which value-dependent path of the implementation the witness selects. Recognisers for paths whose
+    behaviour depends on one coarse condition come first (one defect -> one key, reached by the deterministic
+    boundary set, hence stable across seeds); the fallback spells out op, operand types and representation
+    classes. Operand *values* never enter."""
+    op = spec["op"]
+    pt, vals, variant = operands(spec, args)
+    fx = next((t for t in pt if t in FIXED), None)
+    if spec["kind"] not in ("conv", "un") and len(vals) == 2:
         a, b = vals
-        if b == 0:
-            return "zero-divisor"
-        sg = ("neg" if a < 0 else "nonneg") + "/" + ("neg" if b < 0 else "pos") if a == a and b == b else "nan"
-        return sg + ":" + ",".join(rep_class(t, v) for t, v in zip(pt, vals))
-    return ",".join(rep_class(t, v) for t, v in zip(pt, vals)) or "-"
+        if op in ("<<", ">>") and isinstance(b, int) and not isinstance(a, float):
+            if fx:
+                width = FIXED[fx][2]
+                cr = "count<0" if b < 0 else ("count<width" if b < width else "count>=width")
+                if all(t not in FIXED or in_range(t, v) for t, v in zip(pt, vals)):
+                    # a literal left operand is emitted as a plain C int: its own path while the count is in range
+                    lit_left = variant == "literal-left" and cr == "count<width"
+                    return f"fixed-width-shift:{'literal-left:' if lit_left else ''}{cr}"
+                return f"{op}:{','.join(_tclass(t) for t in pt)}:{variant}:{cr}:operand-out-of-range"
+            cr = "count<0" if b < 0 else ("count<64" if b < 64 else "count>=64")
+            return f"{op}:{','.join(pt)}:{variant}:{cr}:{_kclass(pt[0], a)}"
+        kinds = {("float" if t == "float" else "intlike") for t in pt}
+        if kinds == {"float", "intlike"} and not fx:
+            iv = b if pt[0] == "float" else a
+            fam = "compare" if op in CMP else op
+            return f"int-float-mixed:{fam}:int-{_inexact_as_float(iv)}-as-float"
+        if op == "/" and "float" not in pt and b != 0:
+            ex = {_inexact_as_float(a), _inexact_as_float(b)}
+            why = "too-large" if "too-large" in ex else ("inexact" if "inexact" in ex else "exact")
+            return f"int-truediv:operand-{why}-as-float"
+        if op in ("//", "%", "divmod", "/"):
+            if b == 0:
+                return f"{op}:{','.join(_tclass(t) for t in pt)}:{variant}:zero-divisor"
+            if a == a and b == b:
+                sg = ("neg" if a < 0 else "nonneg") + "/" + ("neg" if b < 0 else "pos")
+                return (f"{op}:{','.join(_tclass(t) for t in pt)}:{variant}:{sg}:"
+                        + ",".join(_kclass(t, v) for t, v in zip(pt, vals)))
+    return (f"{op}:{','.join(_tclass(t) for t in pt) or '-'}:{variant}:"
+            + (",".join(_kclass(t, v) for t, v in zip(pt, vals)) or "-"))
+
+
+def regime(spec: dict[str, Any], args: tuple[Any, ...]) -> str:
+    return mechanism(spec, args)
 
 
 def outcome_class(o: tuple[str, Any]) -> str:
@@ -566,9 +619,9 @@ def describe(spec: dict[str, Any]) -> str:
 
 
 def violation_key(spec: dict[str, Any], args: tuple[Any, ...], want: tuple[str, Any], got: tuple[str, Any]) -> str:
-    """Mechanism key: (what went wrong) : op : operand types : operand regime. Never operand values."""
+    """Mechanism key = (how the outcome differs) : (path selected by the witness). Never operand values."""
     if want[0] == "raise":
-        if want[1] == CONV_EXC:
+        if tuple(want[1]) == CONV_EXC:
             what = "out-of-range-int-accepted" if got[0] == "v" else f"conversion-raises-{got[1]}"
         elif got[0] == "v":
             what = f"no-{want[1][0]}"
@@ -580,10 +633,8 @@ def violation_key(spec: dict[str, Any], args: tuple[Any, ...], want: tuple[str, 
         what = f"result-type-{type(got[1]).__name__}-not-{type(want[1]).__name__}"
     else:
         what = "wrong-value"
-    types = ",".join(spec["pt"]) or "literals"
-    kind = spec["kind"] if spec["kind"] in ("conv", "const", "un") else "op"
-    lit = ":literal-operand" if spec["kind"] == "lit" else ""
-    return f"{what}:{kind}:{spec['op']}:{types}{lit}:{regime(spec, args)}"
+    kind = spec["kind"] + ":" if spec["kind"] in ("conv", "un") else ""
+    return f"{what}:{kind}{mechanism(spec, args)}"
 
 
 def iter_boundary(spec: dict[str, Any]) -> Iterator[tuple[Any, ...]]:
